@@ -75,12 +75,16 @@ def npInterp : List (Int × Rat) → Int → Option Rat
     else if x < r.1 then some ((r.2 - q.2) / ((r.1 - q.1 : Int) : Rat) * ((x - q.1 : Int) : Rat) + q.2)
     else npInterp (r :: rest) x
 
+/-- one row after the interpolation: a defined entry stays, an undefined one is interpolated from the defined rows `valid` -/
+def fillRow (valid : List (Int × Rat)) (r : PRow) : PRow :=
+  match r.2 with
+  | some _ => r
+  | none => (r.1, npInterp valid r.1)
+
 /-- `interpolate(method='time', limit_direction='both')` on one column: defined entries stay, the others are interpolated
     in time from the defined ones -/
 def interpolateCol (col : List PRow) : List PRow :=
-  col.map fun r => match r.2 with
-    | some _ => r
-    | none => (r.1, npInterp (definedRows col) r.1)
+  col.map (fillRow (definedRows col))
 
 /-- one grid point joins a sorted column: nothing to do if its instant is there, else a NaN row at its place -/
 def insertPt (p : Int) : List PRow → List PRow
